@@ -91,6 +91,8 @@ func evalLine(line string) (out string) {
 	switch f[0] {
 	case "E":
 		return evalExpand(unhx(f[1]))
+	case "D":
+		return evalDeep(f[1], f[2])
 	case "T":
 		return evalTokens(unhx(f[1]))
 	case "P":
@@ -292,6 +294,9 @@ func linesOf(api string, args interface{}) []string {
 	var out []string
 	switch a := args.(type) {
 	case map[string]interface{}:
+		if d, ok := a["deep_line"].(string); ok {
+			return []string{d}
+		}
 		e, _ := a["expression"].(string)
 		if _, ok := a["expression"]; ok {
 			if al, ok := a["allowed"]; ok {
